@@ -124,6 +124,10 @@ func main() {
 			res["what"] = v.What
 		}
 		json.NewEncoder(os.Stdout).Encode(res)
+	case "refcall":
+		if err := callsim.RefCall(os.Stdin, os.Stdout); err != nil {
+			die2("refcall: %v", err)
+		}
 	case "digest":
 		callsim.Digest17(*seed, int64(*w), int64(*nw), *repo, func(l string) { fmt.Println(l) })
 	case "corpus":
